@@ -49,7 +49,7 @@ func init() {
 		Rule:       "as C01 with Byzantine leaders proposing blocks every correct validator rejects (view 0, inside NEW_VIEWs) and per-node consumer rejections; non-trivial = a commit was judged in a case where a bad block had been proposed",
 		Floors:     map[string]int{"C04 commits judged": 1000, "adv badBlock": 500},
 		Judged:     []string{"C04 commits judged"}})
-	reg(&sim.SimCheck{Prop: "C07", Workload: "c07", Profile: advProfile(map[string]int{"forgedNV": 20, "twistedNV": 20, "barePP": 8, "mutate": 30}, 400, 1),
+	reg(&sim.SimCheck{Prop: "C07", Workload: "c07", Profile: advProfile(map[string]int{"forgedNV": 20, "twistedNV": 20, "barePP": 8, "mutate": 30, "crossInstance": 12}, 450, 2),
 		QuickCases: 5000, ThoroughCases: 100000,
 		NonTrivial: func(r *sim.Result) bool { return r.Stats["C07 prepares judged"]+r.Stats["C07 adoptions judged"] > 0 },
 		Rule:       "adversarial cases rich in forged / twisted NEW_VIEWs and bare PREPREPAREs; every PREPARE sent and every proposal stored by a correct node in a view above 0 is judged against the reference NEW_VIEW validator; non-trivial = at least one such act was judged",
